@@ -614,6 +614,14 @@ def apply(repo):
             except ValueError:
                 pass
         nz.dropped.append(hq)
+    nz.alias_subst = 0
+    if os.environ.get("BSA_ALIAS", "1") != "0":
+        seen = set()
+        for fi in repo.funcs.values():
+            if id(fi.node) in seen:
+                continue
+            seen.add(id(fi.node))
+            nz.alias_subst += propagate_aliases(fi.node)
     nz.shape_changes = 0
     if os.environ.get("BSA_SHAPE", "1") != "0":
         seen = set()
@@ -795,3 +803,98 @@ def shape(fn):
     if not fn.body:
         fn.body = [ast.copy_location(ast.Pass(), fn)]
     return sh.changes
+
+
+# =====================================================================================================
+# P5 alias propagation: a local bound exactly once to a pure attribute chain (`lock = Cls.identifiers_lock`,
+# `header = msg.header`) is replaced by that chain at its uses.  The binding statement stays (dead), so
+# nothing about evaluation order changes for the rules; what changes is that a rule sees the object the
+# code really touches instead of a local name.  Not applied when the chain's root or the chain itself is
+# stored to anywhere in the function, when the local is a parameter / loop target / global, or when a use
+# could precede the binding (binding not in a block that encloses every use and precedes it).
+# =====================================================================================================
+def _chain_text(e):
+    if isinstance(e, ast.Name):
+        return e.id
+    if isinstance(e, ast.Attribute):
+        b = _chain_text(e.value)
+        return None if b is None else f"{b}.{e.attr}"
+    return None
+
+
+def propagate_aliases(fn):
+    params = {a.arg for a in fn.args.posonlyargs + fn.args.args + fn.args.kwonlyargs}
+    if fn.args.vararg:
+        params.add(fn.args.vararg.arg)
+    if fn.args.kwarg:
+        params.add(fn.args.kwarg.arg)
+    stores = {}
+    attr_stores = set()
+    for n in ast.walk(fn):
+        if isinstance(n, ast.Name) and isinstance(n.ctx, (ast.Store, ast.Del)):
+            stores[n.id] = stores.get(n.id, 0) + 1
+        elif isinstance(n, ast.Attribute) and isinstance(n.ctx, (ast.Store, ast.Del)):
+            t = _chain_text(n)
+            if t:
+                attr_stores.add(t)
+        elif isinstance(n, (ast.Global, ast.Nonlocal)):
+            for g in n.names:
+                stores[g] = 99
+        elif isinstance(n, ast.ExceptHandler) and n.name:
+            stores[n.name] = stores.get(n.name, 0) + 1
+    cands = {}
+
+    def scan(stmts, depth_ok):
+        for i, s in enumerate(stmts):
+            if isinstance(s, ast.Assign) and len(s.targets) == 1 and isinstance(s.targets[0], ast.Name) \
+                    and isinstance(s.value, ast.Constant) and type(s.value.value) in (int, bytes, str) \
+                    and stores.get(s.targets[0].id) == 1 and s.targets[0].id not in params:
+                # a local bound once to a literal stands for the literal
+                name = s.targets[0].id
+                later = stmts[i + 1:]
+                uses_later = sum(1 for t in later for n in ast.walk(t) if isinstance(n, ast.Name) and n.id == name and isinstance(n.ctx, ast.Load))
+                uses_all = sum(1 for n in ast.walk(fn) if isinstance(n, ast.Name) and n.id == name and isinstance(n.ctx, ast.Load))
+                if uses_all and uses_later == uses_all:
+                    cands[name] = (s.value, later)
+            elif isinstance(s, ast.Assign) and len(s.targets) == 1 and isinstance(s.targets[0], ast.Name) \
+                    and isinstance(s.value, ast.Attribute):
+                name = s.targets[0].id
+                chain = _chain_text(s.value)
+                if chain and stores.get(name) == 1 and name not in params and depth_ok:
+                    root = chain.split(".")[0]
+                    parts = chain.split(".")
+                    prefixes = {".".join(parts[:k]) for k in range(2, len(parts) + 1)}
+                    if stores.get(root, 0) == 0 and not (prefixes & attr_stores) and root != name:
+                        # every use must be in this block after i (or nested inside later statements)
+                        later = stmts[i + 1:]
+                        uses_later = sum(1 for t in later for n in ast.walk(t) if isinstance(n, ast.Name) and n.id == name and isinstance(n.ctx, ast.Load))
+                        uses_all = sum(1 for n in ast.walk(fn) if isinstance(n, ast.Name) and n.id == name and isinstance(n.ctx, ast.Load))
+                        if uses_all and uses_later == uses_all:
+                            cands[name] = (s.value, later)
+            for fld in ("body", "orelse", "finalbody"):
+                b = getattr(s, fld, None)
+                if isinstance(b, list) and not isinstance(s, (ast.FunctionDef, ast.AsyncFunctionDef, ast.ClassDef)):
+                    scan(b, depth_ok)
+            if isinstance(s, ast.Try):
+                for h in s.handlers:
+                    scan(h.body, depth_ok)
+    scan(fn.body, True)
+    n_sub = 0
+    for name, (value, later) in cands.items():
+        class R(ast.NodeTransformer):
+            def visit_Name(self, n):
+                nonlocal n_sub
+                if n.id == name and isinstance(n.ctx, ast.Load):
+                    n_sub += 1
+                    return ast.copy_location(copy.deepcopy(value), n)
+                return n
+
+            def visit_Lambda(self, n):
+                return n
+
+            def visit_FunctionDef(self, n):
+                return n
+        for i, t in enumerate(later):
+            later[i] = ast.fix_missing_locations(R().visit(t))
+        # `later` is a slice copy: write the rewritten statements back into the enclosing block
+    return n_sub
